@@ -676,6 +676,29 @@ def _make_wire_budget():
                         else:
                             mon.count("wire_loss_timer_firings")
 
+                # "each packet's frames are reported acknowledged or lost at most once", on the live connection too
+                # (restart after Retry / Version Negotiation, space discards, 0-RTT rejection): an observer of its own
+                # is appended to every packet handed to the recovery and counts what it is told
+                orig_sent = loss.on_packet_sent
+                reports = st["reports"] = {}
+
+                def observer(state, key):
+                    lst = reports.setdefault(key, [])
+                    lst.append(getattr(state, "name", str(state)))
+                    mon.count("wire_packet_outcomes_reported")
+                    if len(lst) == 2:
+                        mon.report("wire:delivery:reported-twice:%s-then-%s" % (lst[0], lst[1]),
+                                   "%s: the frames of its packet #%d (%s, %d bytes, %d other handler(s)) were reported %s" % (ep.name, key[1], key[2], key[3], key[4], " then ".join(lst)),
+                                   {"endpoint": ep.name, "packet": list(key), "reports": list(lst)})
+
+                def on_packet_sent(*, packet, space):
+                    st["sent_seq"] = st.get("sent_seq", 0) + 1
+                    key = (st["sent_seq"], packet.packet_number, getattr(packet.packet_type, "name", str(packet.packet_type)), packet.sent_bytes, len(packet.delivery_handlers))
+                    packet.delivery_handlers.append((observer, (key,)))
+                    mon.count("wire_packets_observed")
+                    return orig_sent(packet=packet, space=space)
+
+                loss.on_packet_sent = on_packet_sent
                 loss._send_probe = send_probe
                 loss.on_loss_detection_timeout = on_loss_detection_timeout
             return st
